@@ -28,9 +28,13 @@ TYPE_WORDS = [('list of lists', 'listlist'), ('list', 'list'),
               ('string', 'str'), ('str', 'str')]
 
 
+EXAMPLES = {}
+
+
 def parse_docs(text):
     sec = None
     keys, types = {}, {}
+    EXAMPLES.clear()
     for line in text.splitlines():
         m = re.match(r'^\s+\[(\w+)\]\s*$', line)
         if m:
@@ -46,6 +50,12 @@ def parse_docs(text):
             k = m.group(1)
             keys[sec].append(k)
             ann = (m.group(4) or '').strip().lower()
+            ex = m.group(2).strip()
+            eg = re.search(r'e\.g\.?[:,]\s*(.*)$', (m.group(4) or ''))
+            if not ex and eg:
+                ex = eg.group(1).strip()
+            if ex:
+                EXAMPLES[(sec, k)] = ex
             for word, t in TYPE_WORDS:
                 if ann.startswith(word):
                     types[(sec, k)] = t
@@ -78,6 +88,7 @@ class ParserWalk:
         self.sections = {}
         self.keys = {}          # section -> set
         self.types = {}         # (section, key) -> type
+        self.none_ok = {}       # (section, key) -> 'None' text mapped to None
         self.remainders = {}    # all_x -> section
         self.raises = set()     # all_x tested + raise
         self.term_first = {}    # key -> bool
@@ -124,6 +135,8 @@ class ParserWalk:
             return
         for k in self.vals(keynode):
             self.types[(sec, k)] = t
+            if "'None'" in txt:
+                self.none_ok[(sec, k)] = True
 
     def walk(self, stmts):
         for st in stmts:
@@ -605,6 +618,97 @@ def run(ctx):
                   sample={'section': s_, 'key': k, 'api': want,
                           'parsed': got})
     ctx.need(nq >= 12, f'only {nq} options with a typed API default')
+    # Q2b: run.py may index the parsed options only with keys that the parser
+    # sets on every path (an optional section such as [gridding_opts] is
+    # absent from the dictionary when it was not given / empty)
+    always = set()
+    for st_ in fn.body:
+        for n_, b_ in find("_s_[_k_] = __", st_):
+            pass
+    simname = None
+    rd = [n_ for n_ in ast.walk(fn) if isinstance(n_, ast.Dict) and any(
+        isinstance(k_, ast.Constant) and k_.value == 'simulation_options'
+        for k_ in n_.keys)]
+    ctx.anchor(len(rd) == 1, 'returned option dictionary of the parser')
+    for k_, v_ in zip(rd[0].keys, rd[0].values):
+        if isinstance(k_, ast.Constant) and k_.value == 'simulation_options':
+            simname = ast.unparse(v_)
+    for st_ in ast.walk(fn):
+        if isinstance(st_, ast.Assign) and not au.guards_of(st_, fn):
+            for t_ in st_.targets:
+                if isinstance(t_, ast.Subscript) and ast.unparse(
+                        t_.value) == simname and isinstance(
+                            t_.slice, ast.Constant):
+                    always.add(t_.slice.value)
+    nsub = 0
+    for n_ in ast.walk(rs):
+        if isinstance(n_, ast.Subscript) and isinstance(n_.ctx, ast.Load) and \
+                isinstance(n_.slice, ast.Constant) and ast.unparse(
+                    n_.value).endswith("['simulation_options']"):
+            nsub += 1
+            ctx.check('C18.Q2.routing', f"cli.run `{ast.unparse(n_)}`",
+                      n_.slice.value in always,
+                      f"the parser sets '{n_.slice.value}' only when the "
+                      'section / key was given; indexing it raises KeyError '
+                      'for a configuration without it (use .get)',
+                      ctx.where(rm, n_))
+    # Q5b: a section name the parser does not know is an unknown option too
+    known_secs = set(W.remainders.values()) | {'files', 'simulation'}
+    secvars = set()
+    for st_ in ast.walk(fn):
+        if isinstance(st_, ast.Assign) and '.sections()' in ast.unparse(
+                st_.value):
+            for t_ in st_.targets:
+                if isinstance(t_, ast.Name):
+                    secvars.add(t_.id)
+    sec_check = []
+    for n_ in ast.walk(fn):
+        if not isinstance(n_, ast.Raise):
+            continue
+        for t_, pol_ in au.guards_of(n_, fn):
+            names_ = {y.id for y in ast.walk(t_) if isinstance(y, ast.Name)}
+            # (the per-section `if 'x' not in cfg.sections(): add_section`
+            # tests do not raise)
+            const_in = isinstance(t_, ast.Compare) and isinstance(
+                t_.left, ast.Constant)
+            if names_ & secvars or ('.sections()' in ast.unparse(t_) and
+                                    not const_in):
+                sec_check.append(n_)
+    ctx.check('C18.Q5.unknown', 'unknown sections raise', bool(sec_check),
+              'a section the parser does not know (e.g. a misspelt '
+              '[solver] for [solver_opts]) is ignored with all its options '
+              'instead of being rejected', ctx.where(pm, fn),
+              sample={'known_sections': sorted(known_secs)})
+    # Q6c: the example values printed in the documentation of the
+    # configuration file are accepted by the extraction the parser uses for
+    # that key, and mean for the API what they say (`None` read with a string
+    # getter is the string 'None', not None)
+    BOOL = {'1', 'yes', 'true', 'on', '0', 'no', 'false', 'off'}
+    nex = 0
+    for (s_, k), ex in sorted(EXAMPLES.items()):
+        kind = W.types.get((s_, k))
+        if kind not in ('float', 'int', 'bool', 'str'):
+            continue
+        nex += 1
+        why = ''
+        try:
+            if kind == 'float':
+                float(ex)
+            elif kind == 'int':
+                int(ex)
+            elif kind == 'bool' and ex.lower() not in BOOL:
+                why = 'not a configparser boolean'
+            elif kind == 'str' and ex == 'None' and not W.none_ok.get(
+                    (s_, k)):
+                why = "read as the string 'None', the API expects None"
+        except ValueError as e:
+            why = str(e)
+        ctx.check('C18.Q6.examples', f'[{s_}] {k} = {ex}', not why,
+                  f'the documented example `{k} = {ex}` is extracted as '
+                  f'{kind}: {why}', ctx.where(pm, fn),
+                  sample={'section': s_, 'key': k, 'example': ex,
+                          'extraction': kind})
+    ctx.need(nex >= 12, f'only {nex} documented example values found')
     # Q4b: "not given on the terminal" must be distinguishable: options with
     # a configuration twin need default=None in argparse
     twins = {'nproc', 'layered', 'path', 'survey', 'model', 'output', 'save',
